@@ -310,6 +310,13 @@ func (m *Manager) AssignAddress(ctx context.Context, sessionID string, ipv4PoolI
 		}
 
 		m.mu.Lock()
+		// The session may already have had another address (re-assignment):
+		// its old by-IP entry must not keep pointing at this session.
+		if session.IPv4 != nil && !session.IPv4.Equal(ip) {
+			if cur, ok := m.byIP[session.IPv4.String()]; ok && cur == sessionID {
+				delete(m.byIP, session.IPv4.String())
+			}
+		}
 		session.IPv4 = ip
 		session.SubnetMask = mask
 		session.Gateway = gateway
@@ -328,6 +335,11 @@ func (m *Manager) AssignAddress(ctx context.Context, sessionID string, ipv4PoolI
 			)
 		} else {
 			m.mu.Lock()
+			if session.IPv6 != nil && !session.IPv6.Equal(ip) {
+				if cur, ok := m.byIP[session.IPv6.String()]; ok && cur == sessionID {
+					delete(m.byIP, session.IPv6.String())
+				}
+			}
 			session.IPv6 = ip
 			session.IPv6Prefix = prefix
 			if ip != nil {
